@@ -120,6 +120,8 @@ type MatOpts struct {
 	RenderCtx   bool   // C02: every node saves a result rendering the whole context (minus webhook, legacy_extra)
 	ResultNames bool   // routers save results
 	Extra       func(f, n int, d NodeDef, node M) // last-minute decoration
+	InspectW    *lineWriter                       // C20: write inspection-vs-execution lines here
+	insp        *inspector
 }
 
 func choiceWord(c int) string {
